@@ -199,6 +199,7 @@ class Run:
             self.decisions.append(d)
         self.pos += 1
         self._add(cond if d else z3.Not(cond))
+        self.__dict__.setdefault("branch_conds", []).append(cond)
         return d
 
     def assume(self, cond, note=None):
